@@ -159,6 +159,12 @@ def per_player_sums(ctx, rule):
                 it_ok = it_arg[0] == 'param' and f.locals[it_arg[1]]['ty'] == 'u64'
             par_arg = strip_refs(q.subst_upvars(lib, cf, ae[2][2]))
             par_ok = par_arg[0] in ('param', 'upvar')
+            if not par_ok and par_arg[0] == 'field' and strip_refs(par_arg[1])[0] in ('param', 'var', 'deref'):
+                # the parameters kept in a context struct the solver was given / built from its own parameter
+                base_ = strip_refs(par_arg[1])
+                while base_[0] == 'deref':
+                    base_ = strip_refs(base_[1])
+                par_ok = base_[0] == 'param' or (base_[0] == 'var' and (lambda v0: v0 is not None and strip_refs(v0)[0] in ('param', 'upvar'))(q.record_field_init(f, base_[1], par_arg[2])))
             ctx.verdict(whole and it_ok and par_ok, rule, '%s:%s#%d' % (rule, q.top(f.name), n),
                         'a per-player bound is the sum over the *entire* infoset slice of advance(it, params) with the loop\'s own iteration index',
                         f.where(bi), 'whole slice: %s; it argument %s is the induction variable: %s; params passed through: %s' % (whole, facts.show(it_arg)[:30], it_ok, par_ok),
@@ -246,6 +252,10 @@ def run(ctx):
                 return False
             f64pair = f.locals[t['args'][0]['pl']['l']]['ty'] == '[f64; 2]' if t['args'][0].get('o') in ('copy', 'move') else False
             ok = f64pair and from_solver(a)
+            if f64pair and not ok and a[0] == 'agg' and a[1] == 'array' and len(a[2]) == 2:
+                # the pair rebuilt from a two-field record of the solver's result, in field order
+                comps = [strip_refs(x) for x in a[2]]
+                ok = all(c[0] == 'field' and from_solver(c[1]) for c in comps) and [c[2] for c in comps] == ['0', '1'] and facts.show(comps[0][1]) == facts.show(comps[1][1])
             ctx.verdict(ok, rule, rule + ':solve-wraps-solver-bounds', 'Game::solve wraps the pair of bounds returned by the solver unchanged', f.where(bi), 'argument %s' % facts.show(a)[:60])
     # initial value INFINITY
     rule = 'C02.initial-infinite'
@@ -254,15 +264,22 @@ def run(ctx):
         if g.is_closure or not g.name.startswith(('solve::vanilla::solve_generic', 'solve::external::solve_external')):
             continue
         inf = False
+        other = False
         for g_ in [g] + lib.closures_of(g):
             for bi, si, st in g_.assigns():
                 e = g_.rvalue_expr(st['rv'], bi)
                 if e[0] == 'repeat' and is_const(e[1], float('inf')) and e[2] == '2':
                     inf = True
-                if e[0] == 'agg' and e[1] == 'array' and len(e[2]) == 2 and all(is_const(x, float('inf')) for x in e[2]):
-                    inf = True
+                elif (e[0] == 'repeat' and e[2] == '2' and e[1][0] == 'const' and 'f64' in str(e[1][2]) and not is_const(e[1], 1)) or \
+                        (e[0] == 'agg' and e[1] in ('array', 'tuple') and len(e[2]) == 2 and all(x[0] == 'const' and 'f64' in str(x[2]) for x in e[2]) and not all(is_const(x, float('inf')) for x in e[2])):
+                    other = True       # a pair of bounds initialised with something else
+                if e[0] == 'agg' and e[1] in ('array', 'tuple') and len(e[2]) == 2 and all(is_const(x, float('inf')) for x in e[2]):
+                    inf = True      # also a pair given field names (`Regrets { one: INFINITY, two: INFINITY }`)
         n += 1
         ctx.touch(g)
+        if not inf and not other:
+            ctx.anchor_lost(rule, '%s: the initial value of the pair of bounds' % g.name, 'no literal pair of f64 constants in the function (a named constant / constructor)')
+            continue
         ctx.verdict(inf, rule, '%s:%s' % (rule, g.name), 'both bounds start as f64::INFINITY (infinite exactly when no iteration ran, given C09.O3)', g.where(0), 'initialised with [INFINITY; 2]: %s' % inf)
     if n < 4:
         ctx.anchor_lost(rule, 'solver entry functions', 'found %d of 4' % n)
